@@ -3,6 +3,8 @@ from __future__ import annotations
 
 import shutil
 
+from hypothesis import strategies as st
+
 from vf.core import Ctx, Violation
 from vf.lab import ctl as C
 from vf.lab import dbx
@@ -13,7 +15,8 @@ ID = "C28"
 LEVEL = "exploration"
 RULE = (
     "The C02 history generator (program family with code edits, version bumps, reverts, argument "
-    "changes, input-file rewrites, runs; default and shallow validity) produces backends that are "
+    "changes, input-file rewrites, runs; default and shallow validity; some tasks with prov=False or "
+    "cache=False) produces backends that are "
     "empty, partially cached, fully cached or stale after edits. Before every real run of the history "
     "the backend file is copied twice: a dry run (Scheduler.run(dryrun=True)) is made on the first "
     "copy under the harness executor, a real run on the second. Oracle: during the dry run no task "
@@ -25,6 +28,27 @@ RULE = (
 )
 ASSUMPTIONS = ["the dry run and the real run start from byte-identical copies of the backend file"]
 MANIFEST = {"technique": "differential dry run vs real run on copied backends over generated histories (Hypothesis, controlled executor)"}
+
+
+@st.composite
+def cases(draw):
+    """C02 histories in which some tasks additionally do not record provenance or are never cached."""
+    case = draw(c02.cases(shallow_prob=4))
+    extra = {}
+    for i in range(case["n"]):
+        k = draw(st.sampled_from([None, None, None, None, "prov", "cache"]))
+        if k:
+            extra[i] = {k: False}
+
+    def dress(i, v):
+        if i in extra:
+            v = dict(v)
+            v["opts"] = {**(v.get("opts") or {}), **extra[i]}
+        return v
+
+    case["init"] = [dress(i, v) for i, v in enumerate(case["init"])]
+    case["ops"] = [[op[0], op[1], dress(op[1], op[2])] if op[0] == "install" else op for op in case["ops"]]
+    return case
 
 
 def copy_backend(backend):
@@ -90,12 +114,13 @@ def run_case(ctx: Ctx, case) -> None:
         labels = []
         if stats:
             labels = [k for k in ("complete", "early", "partial") if stats[k]]
+            labels += sorted({f"opt:{k}" for v in case["init"] for k in (v.get("opts") or {})})
         ctx.case(case, labels=labels, nontrivial=bool(stats and stats["partial"]))
 
 
 def check(ctx: Ctx) -> None:
     C.quiet_logs()
-    ctx.given(c02.cases(shallow_prob=4), lambda c: run_case(ctx, c), ctx.n(60, 1600))
+    ctx.given(cases(), lambda c: run_case(ctx, c), ctx.n(60, 1600))
 
 
 def replay(ctx: Ctx, case) -> None:
